@@ -338,7 +338,22 @@ func buildInbound() core.BuildFunc {
 				}
 				gap := time.Duration(1+t.Choose("scn", 5)) * time.Millisecond
 				p := txPlan{Kind: "valid", H: hd, Body: body, Valid: true, Gap: gap}
-				switch t.Weighted("scn", 12, 2, 1, 1, 1, 1, 1, 1, 1, 1, 1, 2) {
+				switch t.Weighted("scn", 12, 2, 1, 1, 1, 1, 1, 1, 1, 1, 1, 2, 2) {
+				case 12: // a block addressed to another device, or travelling the other way, INSERTED before this block (it must disturb nothing)
+					sh := hd
+					kind := "stray-wrong-device"
+					if t.Choose("scn", 2) == 0 {
+						sh.Device = (device + 1 + uint16(t.Choose("scn", 100))) & 0x7FFF
+					} else {
+						sh.R = !sh.R
+						kind = "stray-wrong-direction"
+					}
+					if t.Choose("scn", 2) == 0 {
+						sh.Sys += 1000 // a different message altogether
+						sh.Num, sh.E = 1, true
+					}
+					sb := []byte{byte(mi), 0xDD}
+					h.plan = append(h.plan, txPlan{Kind: kind, H: sh, Body: sb, Valid: true, Gap: gap, Raw: refe4.Wire(sh, sb)})
 				case 11: // a stray block 0 without the E-bit, same message header, INSERTED before this block
 					sh := hd
 					sh.Num, sh.E = 0, false
